@@ -229,7 +229,7 @@ def ListOfDicts_rename (truth : Term → Bool) : Out :=
   Out.fall [eff0]
 
 /-- the decorators of dataiter/list_of_dicts.py: ListOfDicts.rename, outermost first -/
-def ListOfDicts_rename_decorators : List String := ["deco.new_from_generator", "deco.obsoletes"]
+def ListOfDicts_rename_decorators : List String := ["deco.obsoletes", "deco.new_from_generator"]
 
 /-- the signature of dataiter/list_of_dicts.py: ListOfDicts.rename: parameters in order, with the source text of their defaults -/
 def ListOfDicts_rename_signature : List String := ["self", "**to_from_pairs"]
